@@ -300,6 +300,15 @@ def run_lines(binary, lines, timeout=1800, env=None, args=(), prefix=None):
     if prefix is not None:
         out = [l[len(prefix):] for l in out if l.startswith(prefix)]
     if p.returncode != 0 or len(out) != len(lines):
+        try:
+            os.makedirs(os.path.join(BUILD, "crash"), exist_ok=True)
+            tag = hashlib.sha1(inp.encode()).hexdigest()[:10]
+            with open(os.path.join(BUILD, "crash", "%s-%s.stderr" % (os.path.basename(binary), tag)), "w") as f:
+                f.write(p.stderr)
+            with open(os.path.join(BUILD, "crash", "%s-%s.stdin" % (os.path.basename(binary), tag)), "w") as f:
+                f.write(inp)
+        except OSError:
+            pass
         return out, "rc=%d lines=%d/%d stderr=%s" % (p.returncode, len(out), len(lines), p.stderr[-2000:])
     return out, None
 
@@ -310,8 +319,19 @@ def run_lines_parallel(binary, lines, args=(), prefix=None, workers=12, timeout=
     n = max(1, min(workers, len(lines) // 32))
     size = (len(lines) + n - 1) // n
     chunks = [lines[i:i + size] for i in range(0, len(lines), size)]
+    def one(c):
+        # the whole-server harness runs under testing/synctest; the go1.25.0 runtime occasionally spins or aborts
+        # inside its bubble bookkeeping (seen in runtime.getOrSetBubbleSpecial): a chunk that times out or dies is
+        # retried, the result of a scenario does not depend on the process it runs in
+        r = (None, "not run")
+        for attempt in range(3):
+            r = run_lines(binary, c, timeout=240 + 2 * len(c), args=args, prefix=prefix)
+            if not r[1]:
+                return r
+        return r
+
     with ThreadPoolExecutor(max_workers=n) as ex:
-        res = list(ex.map(lambda c: run_lines(binary, c, timeout=timeout, args=args, prefix=prefix), chunks))
+        res = list(ex.map(one, chunks))
     out, errs = [], []
     for o, e in res:
         if e:
